@@ -125,6 +125,16 @@ def asof(obs, p, method):
     return obs[good[0]] if good else NAN
 
 
+def asof_row(obs, rows, p, method):
+    """frames aligned with a fill method: the observation is the *row*.  rows: the positions whose row is not entirely NaN
+    (over the frame's own columns); the cell is taken from the last / next such row at or before / after p exactly as it
+    is there - a NaN cell of a surviving row stays NaN, its other cells are not replaced by those of another row."""
+    rows = [q for q in rows if (q <= p if method == 'ffill' else q >= p)]
+    if not rows:
+        return NAN
+    return obs.get(rows[-1] if method == 'ffill' else rows[0], NAN)
+
+
 # ------------------------------------------------------------------ comparison of one result against the tree
 def compare(node, got, index, method, cols, out, path='$'):
     import numpy as np, pandas as pd
@@ -167,6 +177,9 @@ def compare(node, got, index, method, cols, out, path='$'):
             return
         columns = list(got.columns)
         have = {c: [float(v) for v in got[c].values] for c in columns}
+    # a frame's row is missing only when it is NaN in every one of the frame's own columns
+    rows = None if s['cols'] is None else sorted(p for i, p in enumerate(s['idx']) if not all(isn(dec(vs[i])) for vs in s['vals']))
+    partial = rows is not None and any(isn(dec(vs[i])) for vs in s['vals'] for i, p in enumerate(s['idx']) if p in rows)
     for c in columns:
         if c is None or c in s['cols']:
             vals = s['vals'][0 if c is None else list(s['cols']).index(c)]
@@ -174,9 +187,9 @@ def compare(node, got, index, method, cols, out, path='$'):
         else:
             obs = {}            # a column the frame did not have: NaN throughout
         for p, g in zip(index, have[c]):
-            e = asof(obs, p, method)
+            e = asof(obs, p, method) if (rows is None or method is None) else asof_row(obs, rows, p, method)
             if not same(g, e):
-                out.append(('C03:value:%s' % (method or 'none'), '%s%s at %s: got %r, expected %r (observations %s)' % (
+                out.append(('C03:value:%s%s' % (method or 'none', ':frame-row-partly-nan' if (partial and method) else ''), '%s%s at %s: got %r, expected %r (observations %s)' % (
                     path, '' if c is None else '[%s]' % c, str(GRID[p])[:10], g, e, {str(GRID[q])[5:10]: v for q, v in obs.items()})))
                 return
 
@@ -263,7 +276,7 @@ def run_job(job):
             def rec(*args, **kwargs):
                 seen.append((args, kwargs))
                 return 0
-            f = presync(rec, index=_explicit(fn, join), method=method)
+            f = presync(rec, index=_explicit(fn, join), method=method, **(dict(columns=False) if columns is False else {}))
             kw = job.get('kw') or []
             f(*[x for i, x in enumerate(inp) if i not in kw], **{'k%d' % i: inp[i] for i in kw})
             if len(seen) != 1:
@@ -310,9 +323,12 @@ def jsonable_tree(inp, tree):
 def mk_ts(rng, sid, idx, cols=None, rowwise=False, p_nan=0.3):
     """values encode (series id, column, grid position) so that a cell taken from the wrong place is visible"""
     ncol = 1 if cols is None else len(cols)
-    rows = [rng.random() < p_nan for _ in idx]
+    rows = [rng.random() < (p_nan if rowwise != 'mixed' else .2) for _ in idx]
     vals = []
     for j in range(ncol):
+        if rowwise == 'mixed':      # some rows entirely NaN, in the others every cell NaN independently
+            vals.append(['nan' if (rows[i] or rng.random() < p_nan) else float(100 * (j + 1) + 10 * (sid + 1) + p) for i, p in enumerate(idx)])
+            continue
         vals.append(['nan' if (rows[i] if rowwise else rng.random() < p_nan) else float(100 * (j + 1) + 10 * (sid + 1) + p) for i, p in enumerate(idx)])
     return {'ts': dict(idx=list(idx), cols=None if cols is None else list(cols), vals=vals)}
 
@@ -365,6 +381,35 @@ def jobs_for(tier, seed):
         k = rng.choice([2, 3])
         members = [mk_ts(rng, sid, SUBSETS[rng.randrange(64)], rng.choice(COLSETS[:5])) for sid in range(k)]
         add('df_sync', members, rng.choice(JOINS), None, rng.choice(['ij', 'oj', 'lj', 'rj']))
+    # B". multi-column frames whose rows are NaN in some columns only (and some rows entirely), WITH a fill method: the row is
+    #     the observation, a partly-NaN row survives as it is.  Alone (identity / explicit index), with a Series or another
+    #     frame, in a list / dict / nested, through df_sync (every column policy), df_reindex (three index spellings), presync
+    for _ in range(1300 if quick else 13000):
+        method = rng.choice(['ffill', 'bfill'])
+        k = rng.choice([1, 2, 2, 3])
+        members = []
+        for sid in range(k):
+            kind = 'f' if sid == 0 else rng.choice(['s', 'f', 'f'])
+            idx = SUBSETS[rng.choice([63, 63, rng.randrange(64), rng.randrange(64)])]
+            members.append(mk_ts(rng, sid, idx, None if kind == 's' else rng.choice(COLSETS[:5]), rowwise='mixed', p_nan=.35))
+        rng.shuffle(members)
+        if rng.random() < .3:
+            members.insert(rng.randrange(len(members) + 1), {'lit': rng.choice(LITS)})
+        r = rng.random()
+        tree = members if r < .5 else {'d': {'k%d' % i: m for i, m in enumerate(members)}} if r < .8 else [members[0], {'d': {'x': members[1:]}}]
+        own = [l['ts']['idx'] for l in flat(tree) if 'ts' in l and l['ts']['cols']][0]
+        jn = rng.choice(JOINS + [sorted(rng.sample(range(6), rng.randrange(0, 7))), list(own)])
+        r = rng.random()
+        if r < .45:
+            add('df_sync', tree, jn, method, rng.choice([None, 'ij', 'oj', 'lj', 'rj']))
+        elif r < .7 or (r < .85 and not isinstance(jn, list)):
+            add('df_reindex', tree, jn, method)
+        elif r < .85:
+            add('df_reindex_ts', tree, jn, method)
+        elif isinstance(tree, list):
+            add('presync', tree, jn, method, False, kw=[i for i in range(len(tree)) if i > 0 and rng.random() < .4])
+        else:
+            add('df_reindex', tree, jn, method)
     # C. nested containers: every shape below x join x method; df_sync (reaches the column step) and df_reindex
     def shapes(a, b, c, l):
         return [[a, {'d': {'x': b}}], [a, {'d': {'x': b, 'y': l}}], [a, [b, c]], {'d': {'p': a, 'q': {'d': {'x': b, 'y': c}}}},
@@ -408,10 +453,11 @@ def nontrivial(job):
 def run(tier, seed):
     quick = tier == 'quick'
     c = Collector('C03', 'collections of 1-3 Series / one-column / multi-column (a,b,c) frames whose indices are subsets of a 6-day grid (all 64, empty '
-                  'included; two-Series lists over %s pairs of index sets), values encode (member, column, day), NaN with probability 0.3 (whole rows when a '
-                  'fill method is used on a frame), mixed with strings/numbers/None, in lists, dicts and 8 nested shapes; join in {ij,oj,lj,rj,explicit '
+                  'included; two-Series lists over %s pairs of index sets), values encode (member, column, day), NaN with probability 0.3 (cell by cell; with a fill method whole rows in '
+                  'section B and, section B", multi-column frames with rows NaN in some columns only next to entirely-NaN rows: the row is the '
+                  'observation, only an entirely-NaN row is missing, a surviving row keeps its NaN cells), mixed with strings/numbers/None, in lists, dicts and 8 nested shapes; join in {ij,oj,lj,rj,explicit '
                   'index}; method in {None,ffill,bfill}; column policy in {default,ij,oj,lj,rj}; df_sync, df_reindex (index as policy, as pd.Index, as a '
-                  'timeseries), presync(recording function); bare numpy arrays: every 2- and 3-tuple of lengths 0..5, 1-d and 2-d, x 4 joins; seeded choices '
+                  'timeseries), presync(recording function; columns=False for frames); bare numpy arrays: every 2- and 3-tuple of lengths 0..5, 1-d and 2-d, x 4 joins; seeded choices '
                   'from random.Random(seed). Distinct by (function, collection, join, method, columns); non-trivial when some member has at least one row'
                   % ('all 4096' if not quick else '~770 seeded'), exhaustive=False,
                   scope='index sets: subsets of 6 timestamps; <=3 timeseries per collection; nesting depth <=4; numpy lengths 0..5')
